@@ -138,10 +138,10 @@ PROPS["C17"] = dict(
 
 # properties whose check is integrated, silent on the unchanged tree modulo listed known
 # findings, and has been shown to see at least one seeded break: only these are claimed
-READY = ["C09", "C10", "C11", "C19", "C20"]
+READY = ["C03", "C04", "C05", "C06", "C07", "C08", "C09", "C10", "C11", "C12", "C13", "C14", "C15", "C16", "C17", "C18", "C19", "C20"]
 
 # workloads implemented entirely in vcore (no format crates): run through the vcore-run binary
-for _p in ("SELF", "C09", "C10", "C11", "C12", "C13", "C19", "C20"):
+for _p in ("SELF", "C03", "C09", "C10", "C11", "C12", "C13", "C16", "C19", "C20"):
     PROPS[_p]["core"] = True
 
 PROPS["C07"] = dict(
